@@ -858,6 +858,25 @@ theorem translate_isSome {env : Env} {t : Tree} {look : Path → Option Module} 
 
 /-! ### the shape of a built translation -/
 
+/-- the class test reports errors only: if all its diagnostics are warnings there are none -/
+theorem classDiag_of_warnings {isRoot : Bool} {n : NodeInfo} (h : ∀ d ∈ classDiag isRoot n, d.isWarning = true) :
+    classDiag isRoot n = [] := by
+  unfold classDiag at h ⊢
+  split
+  · split
+    · rfl
+    · rename_i hr hw
+      have := h (.notQWidget n.cls.name) (by simp [hr, hw])
+      simp [Diag.isWarning] at this
+  · split
+    · rfl
+    · rename_i hr hw
+      have := h (.notActionLayoutWidget n.cls.name) (by simp [hr, hw])
+      simp [Diag.isWarning] at this
+
+theorem accepted_iff {o : Output} : o.accepted = true ↔ o.built = true ∧ ∀ d ∈ o.diags, d.isWarning = true := by
+  simp [Output.accepted, List.all_eq_true]
+
 theorem translate_built {env : Env} {t : Tree} {look : Path → Option Module} {base : Path} {f : File} {o : Output}
     (h : translate env t look base f = some o) (hb : o.built = true) :
     ∃ rootCls kids root,
@@ -866,7 +885,7 @@ theorem translate_built {env : Env} {t : Tree} {look : Path → Option Module} {
       infos env t look [(f.root, rootCls)] = some [root] ∧
       o.customs = customWidgets env look (nodesOf env look (docSpace env t look base f.imports).1 f rootCls) ∧
       o.widgets = widgetOf root :: kids.map kidWidgetOf ∧
-      (o.diags = [] → classDiag true root = [] ∧ ∀ k ∈ kids, classDiag false k = []) := by
+      ((∀ d ∈ o.diags, d.isWarning = true) → classDiag true root = [] ∧ ∀ k ∈ kids, classDiag false k = []) := by
   unfold translate at h
   simp only at h
   split at h
@@ -878,8 +897,9 @@ theorem translate_built {env : Env} {t : Tree} {look : Path → Option Module} {
       cases h
       refine ⟨rootCls, kids, root, hroot, hk, hr, rfl, rfl, ?_⟩
       intro hd
-      simp only [List.append_eq_nil_iff, List.flatMap_eq_nil_iff] at hd
-      exact ⟨hd.1.2, hd.2⟩
+      refine ⟨classDiag_of_warnings fun d hdm => hd d ?_, fun k hk' => classDiag_of_warnings fun d hdm => hd d ?_⟩
+      · simp only [List.mem_append]; exact .inl (.inr hdm)
+      · simp only [List.mem_append, List.mem_flatMap]; exact .inr ⟨k, hk', hdm⟩
     · cases h
 
 theorem mem_kidNodes {env : Env} {look : Path → Option Module} {sp : List ModuleId} {f : File} {n : Obj × Cls} :
@@ -1315,6 +1335,52 @@ theorem superClass_name {env : Env} {look : Path → Option Module} {c : CompDat
   · cases h
   · cases h
   · rename_i s' hs; cases h; exact lookupRev_name hs
+
+/-! ### import statements: version and alias -/
+
+theorem kidResults_congr {env : Env} {look : Path → Option Module} {sp : List ModuleId} {f f' : File}
+    (hc : f'.children = f.children) : kidResults env look sp f' = kidResults env look sp f := by
+  unfold kidResults; rw [hc]
+
+theorem kidNodes_congr {env : Env} {look : Path → Option Module} {sp : List ModuleId} {f f' : File}
+    (hc : f'.children = f.children) : kidNodes env look sp f' = kidNodes env look sp f := by
+  unfold kidNodes; rw [kidResults_congr hc]
+
+/-- The translation of a document reads its import STATEMENTS in two ways only: through the imports that count
+    (`File.imports`) and through the diagnostics of the statements themselves.  Two files with the same counting imports,
+    root object and children are translated alike up to those diagnostics. -/
+theorem translate_stmts {env : Env} {t : Tree} {look : Path → Option Module} {base : Path} {f f' : File}
+    (hi : f'.imports = f.imports) (hr : f'.root = f.root) (hc : f'.children = f.children) {o : Output}
+    (h : translate env t look base f = some o) :
+    ∃ R, o.diags = stmtDiags f.stmts ++ R ∧
+      translate env t look base f' = some { o with diags := stmtDiags f'.stmts ++ R } := by
+  unfold translate at h ⊢
+  simp only [hi, hr, kidResults_congr hc, kidNodes_congr hc, nodesOf, List.append_assoc] at h ⊢
+  split at h
+  · cases h; exact ⟨_, rfl, rfl⟩
+  · cases h; exact ⟨_, rfl, rfl⟩
+  · split at h
+    · cases h; exact ⟨_, rfl, rfl⟩
+    · cases h
+
+theorem mem_stmtDiags_aliased {l : List ImportStmt} {s : ImportStmt} (hs : s ∈ l) (ha : s.alias.isSome = true) :
+    Diag.aliasedImport ∈ stmtDiags l := by
+  induction l with
+  | nil => cases hs
+  | cons x rest ih =>
+    unfold stmtDiags
+    rcases List.mem_cons.1 hs with rfl | hs
+    · simp [ha]
+    · exact List.mem_append.2 (.inr (ih hs))
+
+theorem stmtDiags_eraseVersions (l : List ImportStmt) :
+    stmtDiags (l.map fun s => { s with version := none }) = (stmtDiags l).filter (· ≠ .importVersionIgnored) := by
+  induction l with
+  | nil => rfl
+  | cons x rest ih =>
+    simp only [List.map_cons, stmtDiags, List.filter_append, ih]
+    congr 1
+    cases ha : x.alias.isSome <;> cases hv : x.version.isSome <;> simp
 
 /-! ### every directory is inserted once -/
 
